@@ -1,5 +1,7 @@
 //! C03 (frame layer only): a frame is entered and exited exactly once around its scope, in that order, on
 //! the same frame value; closed exactly once when dropped; forwarding contexts forward every operation once.
+#[cfg(not(kani))]
+use crate::kani;
 use crate::oracles::*;
 use core::future::Future;
 use core::pin::Pin;
@@ -25,9 +27,9 @@ fn expect(c: &OracleCtxt, want: &[u8]) {
 /// Frame::{root, push, disabled} + call: open, enter, scope, exit, close - once each, in that order; what the
 /// context is asked to open is: root = own props only; push = own ++ current (default open_push);
 /// disabled = current only (default open_disabled = open_push(Empty)).
-#[kani::proof]
-#[kani::unwind(10)]
-fn c03_frame_call_contract() {
+#[cfg_attr(kani, kani::proof)]
+#[cfg_attr(kani, kani::unwind(10))]
+pub(crate) fn c03_frame_call_contract() {
     let v: u64 = kani::any();
     let amb: u64 = kani::any();
     let c = OracleCtxt::new(kani::any(), amb);
@@ -52,9 +54,9 @@ fn c03_frame_call_contract() {
 
 /// enter()/guard drop can be repeated (a future polled many times); with() is enter+current+exit;
 /// into_parts / from_parts do not close; dropping the frame closes it exactly once.
-#[kani::proof]
-#[kani::unwind(10)]
-fn c03_frame_enter_guard_contract() {
+#[cfg_attr(kani, kani::proof)]
+#[cfg_attr(kani, kani::unwind(10))]
+pub(crate) fn c03_frame_enter_guard_contract() {
     let c = OracleCtxt::new(kani::any(), kani::any());
     let mut frame = Frame::root(&c, emit::Empty);
     {
@@ -93,9 +95,9 @@ impl<'a> Future for Oracle2<'a> {
 
 /// FrameFuture::poll: enter, inner poll, exit - for ONE poll whatever it returns; a suspended future leaves the
 /// frame exited between polls; the frame is closed once when the future is dropped.
-#[kani::proof]
-#[kani::unwind(10)]
-fn c03_frame_future_poll_contract() {
+#[cfg_attr(kani, kani::proof)]
+#[cfg_attr(kani, kani::unwind(10))]
+pub(crate) fn c03_frame_future_poll_contract() {
     let c = OracleCtxt::new(kani::any(), kani::any());
     let ready_first: bool = kani::any();
     let mut fut = Frame::root(&c, emit::Empty).in_future(Oracle2 { c: &c, ready_first, polls: 0 });
@@ -123,9 +125,9 @@ fn drive<C: Ctxt>(c: C) -> Option<u64> {
 
 /// &C and Option<C> forward every operation exactly once, to the same frame, and show the inner context's
 /// current properties; a None context is inert.
-#[kani::proof]
-#[kani::unwind(10)]
-fn c03_ctxt_ref_option_forwarders() {
+#[cfg_attr(kani, kani::proof)]
+#[cfg_attr(kani, kani::unwind(10))]
+pub(crate) fn c03_ctxt_ref_option_forwarders() {
     let amb: u64 = kani::any();
     if kani::any() {
         let c = OracleCtxt::new(kani::any(), amb);
@@ -142,9 +144,9 @@ fn c03_ctxt_ref_option_forwarders() {
 }
 
 /// Box<C> forwards every operation exactly once, in order, to the same frame (scalar phase oracle).
-#[kani::proof]
-#[kani::unwind(10)]
-fn c03_ctxt_box_forwarder() {
+#[cfg_attr(kani, kani::proof)]
+#[cfg_attr(kani, kani::unwind(10))]
+pub(crate) fn c03_ctxt_box_forwarder() {
     let amb: u64 = kani::any();
     let c = Box::new(PhaseCtxt::new(amb));
     assert!(drive(&c) == Some(amb));
@@ -153,9 +155,9 @@ fn c03_ctxt_box_forwarder() {
 }
 
 /// Arc<C> forwards every operation exactly once, in order, to the same frame (scalar phase oracle).
-#[kani::proof]
-#[kani::unwind(10)]
-fn c03_ctxt_arc_forwarder() {
+#[cfg_attr(kani, kani::proof)]
+#[cfg_attr(kani, kani::unwind(10))]
+pub(crate) fn c03_ctxt_arc_forwarder() {
     let amb: u64 = kani::any();
     let c = std::sync::Arc::new(PhaseCtxt::new(amb));
     assert!(drive(c.clone()) == Some(amb));
@@ -164,9 +166,9 @@ fn c03_ctxt_arc_forwarder() {
 }
 
 /// dyn ErasedCtxt with the frame stored INLINE in ErasedFrame (1 byte): same operations, same frame.
-#[kani::proof]
-#[kani::unwind(10)]
-fn c03_erased_ctxt_inline_frame() {
+#[cfg_attr(kani, kani::proof)]
+#[cfg_attr(kani, kani::unwind(10))]
+pub(crate) fn c03_erased_ctxt_inline_frame() {
     let amb: u64 = kani::any();
     let c = OracleCtxt::new(kani::any(), amb);
     let e: &dyn ErasedCtxt = &c;
@@ -176,9 +178,9 @@ fn c03_erased_ctxt_inline_frame() {
 }
 
 /// dyn ErasedCtxt with the frame BOXED by ErasedFrame (40 bytes): same operations, same frame, payload intact.
-#[kani::proof]
-#[kani::unwind(10)]
-fn c03_erased_ctxt_boxed_frame() {
+#[cfg_attr(kani, kani::proof)]
+#[cfg_attr(kani, kani::unwind(10))]
+pub(crate) fn c03_erased_ctxt_boxed_frame() {
     let amb: u64 = kani::any();
     let c = BigCtxt(OracleCtxt::new(kani::any(), amb));
     let e: &dyn ErasedCtxt = &c;
